@@ -71,7 +71,26 @@ pub fn check_value(acc: &mut Acc, sub: &str, rank: u64, m: &RV, full: bool, case
         let mut cbuf = Vec::new();
         let c = lexpr::to_writer(&mut cbuf, &v).map(|_| cbuf).map_err(|e| e.to_string());
         let d = Ok(format!("{}", v).into_bytes());
-        vec![a, b, c, d]
+        // the io-writer entry point with writers that take 1 or 3 bytes per call (a legal io::Write)
+        let mut short = Vec::new();
+        for k in [1usize, 3] {
+            struct Short(Vec<u8>, usize);
+            impl std::io::Write for Short {
+                fn write(&mut self, buf: &[u8]) -> std::io::Result<usize> {
+                    let n = buf.len().min(self.1);
+                    self.0.extend_from_slice(&buf[..n]);
+                    Ok(n)
+                }
+                fn flush(&mut self) -> std::io::Result<()> {
+                    Ok(())
+                }
+            }
+            let mut w = Short(Vec::new(), k);
+            short.push(lexpr::to_writer(&mut w, &v).map(|_| w.0).map_err(|e| e.to_string()));
+        }
+        let mut all = vec![a, b, c, d];
+        all.extend(short);
+        all
     });
     let prints = match prints {
         Ok(p) => p,
